@@ -306,6 +306,7 @@ ArgsT = ObjT("Namespace", cut=GListT(Int, 3), cut2=GListT(Int, 3), nextseq_trim=
 @contract("cli.py", "make_pipeline_from_args", props=["C10"], name="make_pipeline_from_args:modifiers")
 def builder_modifiers(c):
     """The segment of make_pipeline_from_args that assembles the modifier list (`modifiers = []` ... end)."""
+    c.replay_grid = ["C10"]
     c.body_from = "modifiers = []"
     c.types(args=ArgsT, paired=Bool, adapters=SeqT(ObjT("Adapter")), adapters2=SeqT(ObjT("Adapter")), action=OptT(Str),
             steps=ObjT("StepList"))
